@@ -6,6 +6,7 @@ package codec
 import (
 	"errors"
 	"fmt"
+	"time"
 )
 
 var stash = map[string]interface{}{}
@@ -55,8 +56,28 @@ func DeepCopy(v interface{}) interface{} {
 	return v
 }
 
+// RawTimes counts time.Time values handed to msgpack unwrapped: msgpack's native timestamp keeps only
+// the instant, so a raw time loses its zone offset; clover wraps every time in *LocalizedTime first.
+var RawTimes int
+
+func countRawTimes(v interface{}) {
+	switch x := v.(type) {
+	case map[string]interface{}:
+		for _, e := range x {
+			countRawTimes(e)
+		}
+	case []interface{}:
+		for _, e := range x {
+			countRawTimes(e)
+		}
+	case time.Time:
+		RawTimes++
+	}
+}
+
 //verif:redirect github.com/vmihailenco/msgpack/v5.Marshal MsgpackMarshal
 func MsgpackMarshal(v interface{}) ([]byte, error) {
+	countRawTimes(v)
 	return put("M", DeepCopy(v)), nil
 }
 
